@@ -149,6 +149,14 @@ func c13Workload[T any](rep *Report, codec Codec[T], k int, rng *rand.Rand, fail
 	stop := make(chan struct{})
 	hubRemotes := hub.Remotes()
 	for i, s := range spokes {
+		// (k links were set up at the same time: each one's remote is enumerated under the id its connect hook announced, complete)
+		if rem, ok := hubRemotes[s.hubID]; !ok || rem.Gate == nil || rem.Echo == nil || rem.GateThenCall == nil {
+			rep.addViolation("property", key+":remote-incomplete", fmt.Sprintf("the hub set up %d links at the same time; the remote enumerated under the id announced for link %d is missing or has nil function fields (enumerated: %v)", k, i, ok), desc)
+			close(stop)
+			return
+		}
+	}
+	for i, s := range spokes {
 		i, s := i, s
 		rem := hubRemotes[s.hubID]
 		pr, _, _ := s.peer.AnyRemote()
